@@ -47,6 +47,12 @@ def boundary_cases(rng):
         out.append([inst, [[1, f64(v)]]])
         inst = [1, [["lin", [[[1, f64(1.0)]], f64(0.0)]]], [GI.dv(1, 3, (-4.0, 0.0))], [], [], [], [], [], []]
         out.append([inst, [[1, f64(-v)]]])
+    # implicit bounds: a binary variable without an explicit bound is [0,1]; other kinds are unbounded
+    for kind in (1, 2, 3):
+        for v in (2.0, -1.0, 1.0 + 2.0 ** -20, 1.0 + 2.0 ** -30, -(2.0 ** -20), -(2.0 ** -30), 0.0, 1.0, 0.5, -TOL7):
+            inst = [1, [["lin", [[[4, f64(1.0)]], f64(0.0)]]], [GI.dv(4, kind, None)],
+                    [GI.constraint(2, 2, ["lin", [[[4, f64(2.0)]], f64(0.0)]])], [], [], [], [], []]   # exact for every v
+            out.append([inst, [[4, f64(v)]]])
     # invalid bounds
     for b in [(1.0, 0.0), (float("inf"), float("inf")), (float("-inf"), float("-inf")), (float("nan"), 1.0)]:
         inst = [1, [["const", f64(1.0)]], [GI.dv(1, 3, b)], [], [], [], [], [], []]
